@@ -183,6 +183,8 @@ structure OrSt where
 
 def orClassify (st : OrSt) (shaken : Expr) : OrSt :=
   match shaken with
+  -- an all()-list over the elements cannot be folded into the disjunction block of its field
+  | .nested _ (.match .all (.group .or _)) => { st with rest := st.rest ++ [shaken] }
   | .nested f x => { st with nested := groupInsert strCmp f [x] st.nested }
   | .search (.ac ctx ci) f c => { st with needles := groupInsert keyCmp (f, c, ci) ctx st.needles }
   | .search (.contains v) f c => { st with needles := groupInsert keyCmp (f, c, false) [.contains v] st.needles }
@@ -228,6 +230,15 @@ def regexSetLe (x y : Expr) : Bool :=
     (match listCmp strCmp s0 s1 with | .lt => true | .gt => false | .eq => boolCmp c0 c1 != .gt)
   | _, _ => true
 
+/-- One step of the and-arm's collection of nested members per field: a block that already is an
+    all()-list (of at least two members) over the elements contributes its members, any other
+    block is one member. -/
+def andNestedStep (acc : List (Str × List Expr)) (x : Expr) : List (Str × List Expr) :=
+  match x with
+  | .nested f (.match .all (.group .or (m1 :: m2 :: ms))) => groupInsert strCmp f (m1 :: m2 :: ms) acc
+  | .nested f b => groupInsert strCmp f [b] acc
+  | _ => acc
+
 /-- `shake_1`. Recursion on fuel (depth budget). -/
 def shake1 : Nat → Expr → Expr
   | 0, e => e
@@ -236,8 +247,7 @@ def shake1 : Nat → Expr → Expr
     | .group .and es =>
       let length := es.length
       let shaken := es.map (shake1 fuel)
-      let nested : List (Str × List Expr) :=
-        shaken.foldl (fun acc x => match x with | .nested f b => groupInsert strCmp f [b] acc | _ => acc) []
+      let nested : List (Str × List Expr) := shaken.foldl andNestedStep []
       let scratch0 := shaken.filter (fun x => match x with | .nested _ _ => false | _ => true)
       let merged := nested.map (fun (f, xs) =>
         match xs with
